@@ -193,8 +193,19 @@ def run_harness(exe, ops, workdir, tag, extra_args=()):
         opf = os.path.join(workdir, "%s.ops.%d" % (tag, start))
         with open(opf, "w") as f:
             f.write("\n".join(ops[start:]) + "\n")
-        p = subprocess.run([exe, opf] + list(extra_args), stdout=subprocess.PIPE, stderr=subprocess.PIPE,
-                           text=True, env=HENV, errors="replace")
+        # generic guard against a hanging implementation: generous wall-clock limit per batch; a
+        # timeout is treated like a crash on the first line that produced no output
+        tmo = float(os.environ.get("VERIF_HARNESS_TIMEOUT", "0")) or max(120.0, 0.02 * (len(ops) - start))
+        try:
+            p = subprocess.run([exe, opf] + list(extra_args), stdout=subprocess.PIPE, stderr=subprocess.PIPE,
+                               text=True, env=HENV, errors="replace", timeout=tmo)
+        except subprocess.TimeoutExpired as te:
+            class _P:
+                pass
+            p = _P()
+            p.stdout = te.stdout if isinstance(te.stdout, str) else (te.stdout or b"").decode("utf-8", "replace")
+            p.stderr = "timeout"
+            p.returncode = -14
         got = p.stdout.split("\n")
         if got and got[-1] == "":
             got.pop()
